@@ -6,6 +6,7 @@ mod gen;
 mod jobs;
 mod opseq;
 mod props;
+mod refs;
 mod tiktoken_data;
 mod vocab;
 
